@@ -15,7 +15,7 @@ use serde_json::json;
 pub const SPEC: PropSpec = PropSpec {
 	id: "C02",
 	level: "exploration",
-	rule: "cells of the matrix (schema node kind x serde Serializer entry point) are enumerated round-robin (case index mod #cells), each with a boundary-biased payload (range edges, enum index n-1/n/n+1, fixed length +-1, decimal bytes with the high bit set, permuted/missing/unknown/duplicated record fields, twin union branches); a case is non-trivial when the serializer returned Ok or the reference demands Err; distinct by hash(schema, call tree)",
+	rule: "cells of the matrix (schema node kind x serde Serializer entry point) are all visited (cell index = f(case seed), ~790 cells, tens of thousands of cases each), each with a boundary-biased payload (range edges, enum index n-1/n/n+1, fixed length +-1, decimal bytes with the high bit set, permuted/missing/unknown/duplicated record fields, twin union branches); a case is non-trivial when the serializer returned Ok or the reference demands Err; distinct by hash(schema, call tree)",
 	assumptions: &[
 		"reference decoder and the expectation table (engine/src/refavro/expect.rs) follow the Avro specification; outcomes the statement does not pin are classified Unspecified and only checked for decodability",
 	],
@@ -633,8 +633,8 @@ fn scalar_or_conforming(rs: &RSchema, id: Id, rng: &mut Rng) -> &'static str {
 pub fn run_case(ctx: &mut Ctx, case_seed: u64) {
 	let mut rng = Rng::new(case_seed);
 	let ncells = NODE_KINDS.len() * CALL_KINDS.len();
-	// enumerate cells round-robin (evaluations counter is per shard; add shard offset)
-	let cell = ((ctx.evaluations as usize).wrapping_mul(1) + ctx.shard as usize * 37 + (case_seed % 7) as usize * ncells / 7) % ncells;
+	// the cell is a function of the case seed alone (replayable); over a run every cell is hit
+	let cell = ((case_seed >> 11) % ncells as u64) as usize;
 	let nk = NODE_KINDS[cell / CALL_KINDS.len()];
 	let ck = CALL_KINDS[cell % CALL_KINDS.len()];
 	let rs = node_schema(nk, &mut rng);
